@@ -35,7 +35,7 @@ def gen(rng, tier, k):
     if sg in ("osu",) and SUPPORTED_KEYS.get(tg):
         kw["keys"] = rng.choice(SUPPORTED_KEYS[tg])
     if sg == "sm" and tg == "qua":
-        kw["keys"] = rng.choice([4, 7, 8])
+        kw["keys"] = rng.choice([4, 7, 8, 3, 6])   # 3 / 6 keys have no Quaver mode: refused by default, converted with an empty Mode when lenient
     if sg == "bms" and tg in ("qua", "sm"):
         kw["keys"] = rng.choice([4, 7, 8] if tg == "qua" else [3, 4, 6, 7, 8])
     if rng.random() < 0.9:
